@@ -35,6 +35,7 @@ class Recorder:
         self.scripted = scripted
         self.bank_of = bank_of      # model -> list of numpy arrays (invariant filter leaves), or None
         self.harness_errors = []
+        self.notes = []
 
     def version(self, model):
         return self.versions.get(id(model), -1)
@@ -80,7 +81,11 @@ class Recorder:
         if not self.scripted:
             return 0
         if abs(f - round(f)) > 1e-5:
-            self.harness_errors.append("scripted loss is not integral: %r" % f)
+            # every scripted step loss of an epoch is the same integer, so a non-integral epoch loss is an observation about
+            # the code (steps skipped / doubled, a wrong mean), not a harness error: logged as -1, which no script contains,
+            # and rejected by the trace specification's scripted-loss guard
+            self.notes.append("scripted loss is not integral: %r" % f)
+            return -1
         return int(round(f))
 
     # ---- module-attribute wrappers -------------------------------------------------------------
